@@ -47,9 +47,12 @@ int main(int argc, char** argv) {
         ephemeralnet::protocol::DiscoveryHint hint{}; hint.scheme = "control"; hint.transport = "control";
         hint.endpoint = "127.0.0.1:" + std::to_string(port); hint.priority = 0; m.discovery_hints.push_back(hint);
     }
-    const auto uri = ephemeralnet::protocol::encode_manifest(m);
-    const auto out = std::filesystem::temp_directory_path() / ("c30-replay-" + std::to_string(port) + ".bin");
-    std::filesystem::remove(out);
+    m.metadata["filename"] = "report.txt";
+    auto uri = ephemeralnet::protocol::encode_manifest(m);
+    if (mode == "undecodable") uri = "eph://deadbeef";          // the CLI cannot decode it, so it cannot know the expected hash
+    auto out = std::filesystem::temp_directory_path() / ("c30-replay-" + std::to_string(port) + ".bin");
+    std::filesystem::remove_all(out);
+    if (mode == "dir") std::filesystem::create_directories(out);   // --out names an existing directory: the manifest's filename is used inside it
     // in hint mode the local daemon port points nowhere, so only the hinted endpoint can deliver
     const std::string ctl = mode == "hint" ? std::to_string(port + 1) : std::to_string(port);
     std::vector<std::string> a{"eph", "--control-host", "127.0.0.1", "--control-port", ctl, "fetch", uri, "--out", out.string()};
@@ -58,6 +61,18 @@ int main(int argc, char** argv) {
     try { rc = eph_cli_main(static_cast<int>(av.size()), av.data()); } catch (const std::exception& e) { std::printf("cli exception: %s\n", e.what()); rc = 99; }
     std::printf("\ncli exit code %d\n", rc);
     int verdict = 0;
+    if (mode == "dir") {
+        for (const auto& e : std::filesystem::directory_iterator(out)) {
+            std::ifstream in(e.path(), std::ios::binary);
+            std::vector<std::uint8_t> got((std::istreambuf_iterator<char>(in)), std::istreambuf_iterator<char>());
+            if (ephemeralnet::crypto::Sha256::digest(got) != m.chunk_hash) {
+                std::printf("REPRODUCED: `eph fetch --out <existing directory>` left %s with %zu foreign bytes that do not hash to the manifest's content hash\n", e.path().filename().c_str(), got.size());
+                verdict = 1;
+            }
+        }
+        std::filesystem::remove_all(out);
+        if (!verdict) std::printf("no foreign file was left in the output directory\n");
+    } else
     if (std::filesystem::exists(out)) {
         std::ifstream in(out, std::ios::binary);
         std::vector<std::uint8_t> got((std::istreambuf_iterator<char>(in)), std::istreambuf_iterator<char>());
